@@ -382,8 +382,9 @@ def cfgs(tier):
         yield 'ShiftLeft a%d b%d r%d' % (w, bw, w), shv_cfg('shl', w, bw, w)
         yield 'ShiftRight a%d b%d r%d logical' % (w, bw, w), shv_cfg('shr', w, bw, w, arith=False)
         yield 'ShiftRight a%d b%d r%d arithmetic' % (w, bw, w), shv_cfg('shr', w, bw, w, arith=True)
-        yield 'RotateLeft a%d b%d' % (w, 6), shv_cfg('rotl', w, 6, w)
-        yield 'RotateRight a%d b%d' % (w, 6), shv_cfg('rotr', w, 6, w)
+        rb = 4 if quick else 6                 # probed: 6 amount bits at 64 bits take about 10 s per query, the quick tier's cap
+        yield 'RotateLeft a%d b%d' % (w, rb), shv_cfg('rotl', w, rb, w)
+        yield 'RotateRight a%d b%d' % (w, rb), shv_cfg('rotr', w, rb, w)
         yield 'CountLeadingZeros a%d r%d' % (w, 8), clz_cfg(w, 8)
 
 
